@@ -80,6 +80,9 @@ def strategy(tier):
              "topo": draw(st.sampled_from(["direct", "concat"])),
              "start": draw(st.sampled_from(["random", "feasible", "on_bound"])),
              "verbosity": draw(st.sampled_from([0, 0, 0, 1, 2, 3, 4])),
+             # variables as plain Signals, as basic slices of one design Signal (array kinds only) or as Signals with a
+             # pre-allocated sensitivity buffer (cleared in place by reset())
+             "var_form": draw(st.sampled_from(["signals", "signals", "slices", "prealloc"])),
              "payload_seed": draw(st.integers(0, 2 ** 31 - 1))}
         c.update(par)
         return c
@@ -489,8 +492,21 @@ def run_mma(case, prob, rec):
     pym = M["pym"]
     import pymoto.common.mma as mmamod
     cum = prob["cum"]
-    variables = [pym.Signal(f"x{i}", state=_make_state(sg["kind"], prob["x0"][cum[i]:cum[i + 1]]))
-                 for i, sg in enumerate(case["sigs"])]
+    form = case.get("var_form", "signals")
+    if form == "slices" and any(sg["kind"] != "arr" for sg in case["sigs"]):
+        form = "signals"
+    rec["var_form"] = form
+    if form == "slices":
+        base = pym.Signal("xall", state=np.array(prob["x0"], dtype=float))
+        variables = [base[int(cum[i]):int(cum[i + 1])] for i in range(len(case["sigs"]))]
+    else:
+        variables = []
+        for i, sg in enumerate(case["sigs"]):
+            st0 = _make_state(sg["kind"], prob["x0"][cum[i]:cum[i + 1]])
+            if form == "prealloc" and isinstance(st0, np.ndarray) and st0.ndim >= 1:
+                variables.append(pym.Signal(f"x{i}", state=st0, sensitivity=np.zeros_like(st0)))
+            else:
+                variables.append(pym.Signal(f"x{i}", state=st0))
     net = pym.Network()
     n = prob["n"]
     responses = []
@@ -602,6 +618,7 @@ def check_case(case, _debug=None):
         where = next((f"{fr.name}" for fr in reversed(tb) if "/pymoto/" in fr.filename), "unknown")
         bad(f"raises:{where}:{type(e).__name__}", traceback.format_exc()[-900:])
     cbs, calls = rec["cb"], rec["calls"]
+    labels.append("variables:" + rec.get("var_form", "signals"))
     niter = len(calls)
     labels.append("iters>=3" if niter >= 3 else "iters<3")
     if len(cbs) == 0:
